@@ -77,6 +77,10 @@ type CrashCase struct {
 	Flip bool `json:"flip,omitempty"`
 	// Point2: crash point of the second faulty round when it differs from the first
 	Point2 *Point `json:"point2,omitempty"`
+	// More: the last More documents of the corpus arrive only after the restart that follows the
+	// first faulty round (the fraction whose sealing was interrupted is active again and keeps
+	// receiving data, or a new fraction does when the index had been published already)
+	More int `json:"more,omitempty"`
 }
 
 func genCrash(t *rapid.T) CrashCase {
@@ -106,6 +110,9 @@ func genCrash(t *rapid.T) CrashCase {
 			c.TornPermille = rapid.IntRange(1, 999).Draw(t, "tornpm")
 		}
 	}
+	if rapid.IntRange(0, 2).Draw(t, "latecomers") == 2 {
+		c.More = rapid.IntRange(1, 20).Draw(t, "more")
+	}
 	return c
 }
 
@@ -123,7 +130,8 @@ func vfail(step string, err error) error {
 
 func runCrash(c CrashCase) (evid.Result, error) {
 	res := evid.Result{Labels: []string{"mode:" + c.Mode}}
-	docs := c.docs()
+	all := c.docs()
+	docs := all[:len(all)-max(0, min(c.More, len(all)-1))]
 	dir := evid.ScratchDir("c08")
 	defer os.RemoveAll(dir)
 	var p *harness.Proc
@@ -155,6 +163,23 @@ func runCrash(c CrashCase) (evid.Result, error) {
 		if err != nil || !r.OK {
 			return res, fmt.Errorf("ingest failed: %v %+v", err, r)
 		}
+	}
+	ingestRest := func() error {
+		if len(docs) == len(all) {
+			return nil
+		}
+		r, err := p.Do(harness.PCmd{Op: "bulk", Docs: all[len(docs):], Wait: true})
+		if err != nil || !r.OK {
+			return evid.Failf("ingest-after-fault", "bulk after the restart that followed the interrupted sealing: %v %+v exit %d %s", err, r, p.Exit, p.StderrTail())
+		}
+		docs = all
+		res.Labels = append(res.Labels, "documents-arrive-after-the-interrupted-sealing")
+		n, err := harness.VerifyServed(p, docs, nil)
+		res.Evals += n
+		if err != nil {
+			return vfail("after the late bulk", err)
+		}
+		return nil
 	}
 	faultLanded := false
 	for round := 0; round < c.Rounds; round++ {
@@ -230,6 +255,15 @@ func runCrash(c CrashCase) (evid.Result, error) {
 		if err := open(fmt.Sprintf("restart after fault (round %d)", round)); err != nil {
 			return res, err
 		}
+		if round == 0 {
+			if err := ingestRest(); err != nil {
+				return res, err
+			}
+		}
+	}
+	// (an un-faulted first round leaves the loop early: the late documents arrive now)
+	if err := ingestRest(); err != nil {
+		return res, err
 	}
 	// a clean seal attempt must now succeed and keep everything
 	if _, err := p.Do(harness.PCmd{Op: "seal"}); err != nil {
@@ -290,6 +324,29 @@ func keys(m map[string]int64) []string {
 		}
 	}
 	return out
+}
+
+// TestEnumPairs: every ordered pair of crash points for two consecutive interrupted sealings, for both
+// settings of the sorted-docs rewriting, with and without the flag being switched between the two
+// attempts, documents arriving in between (small fixed corpus, several doc blocks).
+func TestEnumPairs(t *testing.T) {
+	evid.Enum(t, func(yield func(CrashCase) bool) {
+		for _, skip := range []bool{false, true} {
+			for _, flip := range []bool{false, true} {
+				for _, p1 := range sealPoints {
+					for _, p2 := range sealPoints {
+						p2 := p2
+						c := CrashCase{Synth: gen.Synth{N: 30, PerMID: 3}, Bulk: 11, Mode: "crash", Rounds: 2, Flip: flip,
+							Point: p1, Point2: &p2, TornPermille: 500, More: 8,
+							Opts: harness.StoreOpts{SkipSortDocs: skip, DocBlockSize: 256}}
+						if !yield(c) {
+							return
+						}
+					}
+				}
+			}
+		}
+	}, runCrash)
 }
 
 func TestPropCrash(t *testing.T)   { evid.Check(t, genCrash, runCrash) }
